@@ -731,6 +731,36 @@ def check_balance(scn, res):
 
                 seen.setdefault(k, e['f'])
 
+    # a branch is only given a frame its worker asked for: frames published on a branch minus frames its worker has taken stay small
+    ev = []
+
+    for t, e_, label, info, seq in res.wire:
+        if e_ == 'pub' and info[0] == 'pub' and (info[2] or 0) >= 0 and info[3] == '//':
+            name = label.split('#')[0]
+
+            if (fs.get(name, {}).get('config') or {}).get('outputs_balance'):
+                ev.append((t, 0, label.split('@')[1]))
+
+    workers = {}
+
+    for f in scn['filters']:
+        for up, eph, _, full in sources_of(f):
+            if eph == 0 and (fs.get(up, {}).get('config') or {}).get('outputs_balance'):
+                workers[f['name']] = f'ipc://{full}'
+
+    for e in res.log:
+        if e['ev'] == 'process' and e['f'] in workers and e['inp']:
+            ev.append((e['t'], 1, workers[e['f']]))
+
+    queued = {}
+
+    for t, kind, addr in sorted(ev):
+        queued[addr] = queued.get(addr, 0) + (1 if kind == 0 else -1)
+
+        if queued[addr] > 4:
+            bad('branch-queue-grows', f'{queued[addr]} frames are queued on branch {addr} at {t} ms: the splitter keeps feeding a worker that has not asked')
+            break
+
     # the rejoined stream: no frame twice, strictly increasing, one id per set
     last = {}
 
